@@ -123,6 +123,20 @@ CLAIMED = {
              "(no responder) do not touch any token; 'after any error' is read as errors of the session's own protocol handler.",
         technique="Rocq proof (invariant over reachable server states, monotone death of sessions, refutation witness) + differential correspondence on request histories",
         design="4 (C08)"),
+    "C09": dict(
+        text="Machine-checked theorems over the model of kex.Suite.Valid / kex.Available (Kex/Valid.v): for EC device keys the library allows "
+             "exactly the combinations of the table of FDO 1.1 section 3.6.5 (written down independently; equivalence on the whole finite "
+             "domain and as a general theorem), an accepted suite fixes the owner key family, RSA device keys are left open (as the code "
+             "documents). Tied to the code by evaluating Valid and Available on their whole finite domain on every run (18 device x 13 "
+             "owner key representatives x 12 suite spellings; 12 suites x 19 cipher ids; cipher registrations regenerated from the code) and "
+             "by running the full chain DI, extension, TO0, TO1/bypass, TO2, resale, TO0, TO1, TO2 over the HTTP transport for the product of "
+             "key type x encoding x suite x cipher x reuse x bypass with monitors: valid tuples complete and leave matching credential/voucher, "
+             "tunnel messages are COSE wrappers without plaintext markers, nothing is renegotiated, forbidden tuples are refused on both sides.",
+        note=COMMON_NOTE + "The end-to-end statement is exercised (quick: covering subset + seeded sample; thorough: all 2352 tuples + extras), not "
+             "proved. Deployments whose device and owner keys are of different types are outside the stated product; their outcomes are "
+             "recorded as histograms only (see DESIGN.md).",
+        technique="Rocq proof (finite-domain equivalence with the specification's table, general theorems) + exhaustive differential evaluation + end-to-end matrix",
+        design="4 (C09)"),
     "C20": dict(
         text="Machine-checked theorems over the executable model of protocol.parseDirective/parseURLs/cbor.ArrayShift built on the CBOR "
              "decoder model: totality for every instruction list and role, other-role directives yield the zero directive, invariance under "
